@@ -59,31 +59,37 @@ def _run(case, mirror):
         a, qty, bid, ask = o['asset'], o['qty'], o['bid'], o['ask']
         if mirror:
             qty, bid, ask = -qty, ask, bid          # the same price on the other side
-        orders.append((a, qty, bid, ask))
+        orders.append((a, qty, bid, ask, o.get('pid', 'p')))
         table[(t1, a)] = (bid, ask)
         table[(t0, a)] = (bid * 1.37, ask * 1.37)
         other[a] = (bid * 0.61, ask * 0.61)
     dh = TimedDH(table, other)
     b = q.SimulatedBroker(t0, q.SimulatedExchange(t0), dh, initial_funds=0.0, fee_model=kit.fee_model(case['fee']))
-    b.create_portfolio('p')
-    port = b.portfolios['p']
+    pids = sorted(set(o[4] for o in orders))
     log = []
-    kit.tap(port, log)
-    for a, qty, bid, ask in orders:
-        b.submit_order('p', q.Order(t0, a, qty))
-    if port.cash != 0.0 or log:
+    for pid in pids:
+        b.create_portfolio(pid)
+        kit.tap(b.portfolios[pid], log, pid)
+    by_id = {}
+    for a, qty, bid, ask, pid in orders:
+        od = q.Order(t0, a, qty)
+        by_id[od.order_id] = (a, qty, bid, ask, pid)
+        b.submit_order(pid, od)
+    if any(b.portfolios[p].cash != 0.0 for p in pids) or log:
         raise Violation('submitting changed cash or filled at once')
     b.update(t1)
     if len(log) != len(orders):
         raise Inconclusive('expected %d fills, saw %d' % (len(orders), len(log)))
     rate = kit.fee_rate(case['fee'])
     out = []
-    spent = F(0)
-    hist = [e for e in port.history if e.type == 'asset_transaction']
-    for (_, txn) in log:
-        a = txn.asset
-        spec = [o for o in orders if o[0] == a][0]
-        _, qty, bid, ask = spec
+    spent = {p: F(0) for p in pids}
+    gross = {p: F(0) for p in pids}
+    for (tpid, txn) in log:
+        if txn.order_id not in by_id:
+            raise Violation('fill with unknown order id')
+        a, qty, bid, ask, pid = by_id[txn.order_id]
+        if txn.asset != a:
+            raise Violation('fill in %s for an order in %s' % (txn.asset, a))
         if txn.dt != t1:
             raise Violation('fill of %s stamped %s, broker update time %s' % (a, txn.dt, t1))
         if txn.quantity != qty:
@@ -104,27 +110,31 @@ def _run(case, mirror):
         if not any(abs(comm - e) <= 1e-9 * max(1.0, e) for e in exp):
             raise Violation('commission %r != (commission+tax rate %r) x |round(%r x %d)| = %r' % (
                 comm, float(rate), want, qty, exp[0]))
-        spent += x + F(float(comm))
-        out.append((a, abs(qty), comm, x))
+        spent[tpid] += x + F(float(comm))
+        gross[tpid] += abs(x)
+        out.append((a, abs(qty), comm, x, (qty > 0) != mirror))
+    hist = [e for p in pids for e in b.portfolios[p].history if e.type == 'asset_transaction']
     if len(hist) != len(log) or any(e.dt != t1 for e in hist):
         raise Violation('history events %s do not match %d fills at %s' % ([(e.dt, e.type) for e in hist], len(log), t1))
-    if abs(port.cash - float(-spent)) > 1e-9 * max(1.0, float(sum(abs(o[3]) for o in out))):
-        raise Violation('cash after the fills %r != -(price*qty + commission) = %r' % (port.cash, float(-spent)))
+    for p in pids:
+        cash = b.portfolios[p].cash
+        if abs(cash - float(-spent[p])) > 1e-9 * max(1.0, float(gross[p])):
+            raise Violation('cash of %s after the fills %r != -(price*qty + commission) = %r' % (p, cash, float(-spent[p])))
     return out, rate
 
 
 def run_case(case):
     a1, rate = _run(case, False)
     a2, _ = _run(case, True)
-    c1 = {(a, n): c for a, n, c, x in a1}
-    c2 = {(a, n): c for a, n, c, x in a2}
+    c1 = {(a, n, side): c for a, n, c, x, side in a1}
+    c2 = {(a, n, side): c for a, n, c, x, side in a2}
     for k in c1:
         if abs(c1[k] - c2[k]) > 1e-12 * max(1.0, abs(c1[k])):
             raise Violation('commission differs between a buy and a sell of %s x %d at the same price: %r vs %r' % (
                 k[0], k[1], c1[k], c2[k]))
     cls = []
     nt = False
-    for o, (a, n, c, x) in zip(case['orders'], a1):
+    for o, (a, n, c, x, _side) in zip(sorted(case['orders'], key=lambda o: 0 if o['qty'] < 0 else 1), a1):
         fr = abs(x) - int(abs(x))
         if abs(fr - F(1, 2)) < F(1, 10 ** 12) * max(1, abs(x)):
             cls.append('half_within_float_eps')
@@ -143,6 +153,10 @@ def run_case(case):
     cls.append('fee_zero_model' if case['fee'] is None else ('fee_default' if case['fee'] == 'default' else (
         'fee_rate_positive' if rate > 0 else 'fee_rate_zero')))
     cls.append('orders_%d' % len(case['orders']))
+    if len(set(o['asset'] for o in case['orders'])) < len(case['orders']):
+        cls.append('same_asset_both_sides')
+    if len(set(o.get('pid', 'p') for o in case['orders'])) > 1:
+        cls.append('two_portfolios')
     return Result(cls, nontrivial=nt)
 
 
@@ -172,6 +186,11 @@ def cases(draw):
         if draw(st.sampled_from([False] * 9 + [True])):
             bid = ask = p                                   # locked quote
         orders.append({'asset': a, 'qty': qty, 'bid': bid, 'ask': ask})
+    if draw(st.sampled_from([False, False, True])):
+        o = orders[0]
+        qty2 = draw(st.integers(1, 10))
+        orders.append({'asset': o['asset'], 'qty': -qty2 if o['qty'] > 0 else qty2, 'bid': o['bid'], 'ask': o['ask'],
+                       'pid': draw(st.sampled_from(['p', 'p2']))})
     fee = draw(st.one_of(
         st.tuples(st.floats(0, 1), st.floats(0, 1)).map(lambda t: [float('%.4g' % t[0]), float('%.4g' % t[1])]),
         st.tuples(st.floats(0, 0.01), st.floats(0, 0.01)).map(lambda t: [float('%.4g' % t[0]), float('%.4g' % t[1])]),
@@ -184,5 +203,5 @@ def cases(draw):
 
 
 PARTS = [
-    Part('fills', 'hyp', run_case, strategy=cases(), quick=3000, thorough=480000, quick_shards=8),
+    Part('fills', 'hyp', run_case, strategy=cases(), quick=10000, thorough=480000, quick_shards=8),
 ]
